@@ -348,6 +348,31 @@ func vRunC13(c *vCase) {
 	c.Describe("C13 npre=%d n=%d signed=%v kind=%d nbases=%d head=%v", npre, n, signed, kind, nbases, data[:3])
 	c.Distinct("kind", kind)
 	dsp := NewDataStreamProcessor(0, nil, npre, n)
+	if nbases > 0 && n <= 400 && vChance(r, 0.2) {
+		// the channel's earlier life: longer records with a model of their own were analysed, then the record length was reduced
+		// (which drops that model). Nothing of it may show in what follows.
+		n1 := n + 1 + r.Intn(60)
+		dsp = NewDataStreamProcessor(0, nil, npre, n1)
+		k1 := 1 + r.Intn(4)
+		p1, b1 := make([]float64, k1*n1), make([]float64, n1*k1)
+		for i := range p1 {
+			p1[i], b1[i] = r.NormFloat64()/float64(n1), r.NormFloat64()*100
+		}
+		if err := dsp.SetProjectorsBasis(mat.NewDense(k1, n1, p1), mat.NewDense(n1, k1, b1), "earlier"); err == nil {
+			d1 := make([]RawType, n1)
+			for i := range d1 {
+				d1[i] = RawType(r.Intn(65536))
+			}
+			dsp.AnalyzeData([]*DataRecord{{data: d1, presamples: npre, signed: signed, channelIndex: 0}})
+			if err := dsp.ConfigurePulseLengths(n, npre); err != nil {
+				c.Inconclusive("setup", "ConfigurePulseLengths(%d,%d) after %d: %v", n, npre, n1, err)
+				return
+			}
+			c.Cov("models_loaded_after_a_life_with_longer_records", 1)
+		} else {
+			dsp = NewDataStreamProcessor(0, nil, npre, n)
+		}
+	}
 	var P, B *mat.Dense
 	if nbases > 0 {
 		pd := make([]float64, nbases*n)
@@ -439,7 +464,12 @@ func vRunC13(c *vCase) {
 			for j := range d {
 				d[j] = RawType(r.Intn(65536))
 			}
-			batch = append(batch, &DataRecord{data: d, presamples: npre, signed: signed, channelIndex: 0})
+			pre := npre
+			if vChance(r, 0.15) {
+				pre = 0 // a record without pre-trigger samples (the variable-length trigger makes them): its own values are undefined, the others' are not
+				c.Cov("batches_with_a_record_without_pretrigger_samples", 1)
+			}
+			batch = append(batch, &DataRecord{data: d, presamples: pre, signed: signed, channelIndex: 0})
 		}
 		c.Cov("records_analysed_in_a_batch", 1)
 	}
